@@ -23,7 +23,7 @@ RESULT_KEYS = ["final_strategies", "reachability_strategies", "rewards", "probab
 
 
 def alphabet():
-    """name -> game: 3 solvable, 2 unsolvable when pruned, 2 malformed; 'x' and 'x_no_prune' collide on purpose"""
+    """name -> game: 4 solvable, 2 unsolvable when pruned, 2 malformed; 'x' and 'x_no_prune' collide on purpose"""
     fig55 = CR.read_dict_from_file(os.path.join(REPO, "inputs", "example_games.py"))["game_5_5"]
     g = {k: copy.deepcopy(fig55[k]) for k in ("rewards", "players", "transition_list", "final_states")}
     # P1 prefers a; the P2 state 2 is then referenced by nobody, gets emptied and reports an empty final strategy;
@@ -46,7 +46,10 @@ def alphabet():
               transition_list=[[("go", 1), ("stay", 2)], [(0.5, 3), (0.5, 2)], [(1, 2)], [(1, 3)]], final_states=[3])
     m1 = dict(rewards=[0, -1, 0], players=[P1, PR, PR], transition_list=[[("a", 1)], [(1, 2)], [(1, 2)]], final_states=[2])
     m2 = dict(rewards=[0, 0, 0], players=[P1, PR, PR], transition_list=[[("a", 1)], None, [(1, 2)]], final_states=[2])
-    return [("g", g), ("x", x), ("game_a", game_a), ("x_no_prune", u1), ("g_1", u2), ("m_1", m1), ("b2", m2)]
+    # solvable, with a Player-1 state all of whose moves are dead (pruning empties it) below a probabilistic branch
+    d = dict(rewards=[1, 1, 0, 0], players=[PR, P1, PR, PR],
+             transition_list=[[(0.5, 1), (0.5, 3)], [("l", 2), ("r", 2)], [(1, 2)], [(1, 3)]], final_states=[3])
+    return [("g", g), ("x", x), ("game_a", game_a), ("d_p1", d), ("x_no_prune", u1), ("g_1", u2), ("m_1", m1), ("b2", m2)]
 
 
 def count_transitions(game):
